@@ -53,7 +53,7 @@ func init() {
 			return m.fresh(m.litArg(a[0], "name"), SBool)
 		},
 		rtPkg + ".Bytes": func(m *Machine, _ *Thread, _ *Frame, a []Value, _ ssa.Value) Value {
-			return ByteSlice{T: m.fresh(m.litArg(a[0], "name"), m.bytesSort())}
+			return m.freshBytes(m.fresh(m.litArg(a[0], "name"), m.bytesSort()))
 		},
 		rtPkg + ".Str": func(m *Machine, _ *Thread, _ *Frame, a []Value, _ ssa.Value) Value {
 			return m.fresh(m.litArg(a[0], "name"), m.bytesSort())
@@ -122,7 +122,7 @@ func init() {
 			return m.uf(m.litArg(a[0], "UF name"), SBV(64), m.variadicArgs(a[1]))
 		},
 		rtPkg + ".UFBytes": func(m *Machine, _ *Thread, _ *Frame, a []Value, _ ssa.Value) Value {
-			return ByteSlice{T: m.uf(m.litArg(a[0], "UF name"), m.bytesSort(), m.variadicArgs(a[1]))}
+			return m.freshBytes(m.uf(m.litArg(a[0], "UF name"), m.bytesSort(), m.variadicArgs(a[1])))
 		},
 		rtPkg + ".UFStr": func(m *Machine, _ *Thread, _ *Frame, a []Value, _ ssa.Value) Value {
 			return m.uf(m.litArg(a[0], "UF name"), m.bytesSort(), m.variadicArgs(a[1]))
@@ -136,7 +136,7 @@ func init() {
 			for i, v := range vs {
 				ts[i] = m.termOf(v)
 			}
-			return ByteSlice{T: m.ctor(m.litArg(a[0], "ctor name"), ts...)}
+			return m.freshBytes(m.ctor(m.litArg(a[0], "ctor name"), ts...))
 		},
 		rtPkg + ".Eq": func(m *Machine, _ *Thread, _ *Frame, a []Value, _ ssa.Value) Value {
 			return m.bytesEqual(a[0], a[1])
@@ -403,6 +403,114 @@ func init() {
 		"strconv.Itoa": func(m *Machine, _ *Thread, _ *Frame, a []Value, _ ssa.Value) Value {
 			return m.formatInt(a[0].(*Term), true, 0)
 		},
+		"encoding/json.Unmarshal": func(m *Machine, _ *Thread, _ *Frame, a []Value, _ ssa.Value) Value {
+			// contract: an error, or the target holds an arbitrary value of its type that a JSON
+			// document can produce (bounded: lists of at most json_maxlist elements)
+			if m.branch("json.unmarshal.fails", m.fresh("json.fails", SBool)) {
+				return m.opaqueError("json.unmarshal")
+			}
+			iv, ok := a[1].(IfaceV)
+			if !ok || iv.T == nil {
+				return m.opaqueError("json.InvalidUnmarshalError")
+			}
+			pt, isPtr := iv.T.Underlying().(*types.Pointer)
+			p, isP := iv.V.(Ptr)
+			if !isPtr || !isP || p.O == nil {
+				return m.opaqueError("json.InvalidUnmarshalError")
+			}
+			m.store(p, m.havocJSON(pt.Elem(), 0))
+			return IfaceV{}
+		},
+		"encoding/hex.DecodeString": func(m *Machine, _ *Thread, _ *Frame, a []Value, _ ssa.Value) Value {
+			s := a[0].(*Term)
+			if m.branch("hex.ok", m.uf("hexOK", SBool, []Value{s})) {
+				return TupleV{m.freshBytes(m.uf("hexDec", m.bytesSort(), []Value{s})), IfaceV{}}
+			}
+			return TupleV{m.freshBytes(m.fresh("hex.partial", m.bytesSort())), m.opaqueError("hex.InvalidByteError")}
+		},
+		"strconv.FormatInt": func(m *Machine, _ *Thread, _ *Frame, a []Value, _ ssa.Value) Value {
+			m.needBase10(a[1])
+			return m.formatInt(a[0].(*Term), true, 0)
+		},
+		"strconv.FormatUint": func(m *Machine, _ *Thread, _ *Frame, a []Value, _ ssa.Value) Value {
+			m.needBase10(a[1])
+			return m.formatInt(a[0].(*Term), false, 0)
+		},
+		"strconv.AppendInt": func(m *Machine, _ *Thread, _ *Frame, a []Value, _ ssa.Value) Value {
+			m.needBase10(a[2])
+			return m.appendOp(a[0], m.formatInt(a[1].(*Term), true, 0), nil)
+		},
+		"strconv.AppendUint": func(m *Machine, _ *Thread, _ *Frame, a []Value, _ ssa.Value) Value {
+			m.needBase10(a[2])
+			return m.appendOp(a[0], m.formatInt(a[1].(*Term), false, 0), nil)
+		},
+	}
+}
+
+// havocJSON is an arbitrary value of type t as encoding/json can leave it in a decode target:
+// absent members keep the zero value, null gives nil pointers / slices / zero structs.
+func (m *Machine) havocJSON(t types.Type, depth int) Value {
+	if depth > 4 {
+		panic(m.unsupported("json target type nested deeper than 4"))
+	}
+	switch u := t.Underlying().(type) {
+	case *types.Basic:
+		switch {
+		case u.Info()&types.IsBoolean != 0:
+			return m.fresh("json.bool", SBool)
+		case u.Info()&types.IsString != 0:
+			return m.fresh("json.str", m.bytesSort())
+		case u.Info()&types.IsInteger != 0:
+			w, _, _ := intWidth(u)
+			return m.fresh("json.int", SBV(w))
+		}
+	case *types.Pointer:
+		if m.branch("json.null", m.fresh("json.isnull", SBool)) {
+			return Ptr{}
+		}
+		return Ptr{O: m.newObj(m.havocJSON(u.Elem(), depth+1), "json")}
+	case *types.Slice:
+		if isByte(u.Elem()) {
+			if m.branch("json.null", m.fresh("json.isnull", SBool)) {
+				return ByteSlice{Nil: true, T: m.strLit("")}
+			}
+			return m.freshBytes(m.fresh("json.bytes", m.bytesSort()))
+		}
+		max := m.Cfg.Params["json_maxlist"]
+		if max == 0 {
+			max = 2
+		}
+		conds := make([]*Term, 0, max+2)
+		nv := m.fresh("json.listlen", SBV(64))
+		for i := -1; i <= max; i++ {
+			conds = append(conds, Eq(nv, BVC(64, uint64(int64(i)))))
+		}
+		n := m.decide("json.list", conds) - 1
+		if n < 0 {
+			return SliceV{} // null or absent
+		}
+		e := make([]Value, n)
+		for i := range e {
+			e[i] = m.havocJSON(u.Elem(), depth+1)
+		}
+		return SliceV{O: m.newObj(&ArrayV{E: e}, "json.list"), Len: n, Cap: n}
+	case *types.Struct:
+		f := make([]Value, u.NumFields())
+		for i := range f {
+			if u.Field(i).Exported() {
+				f[i] = m.havocJSON(u.Field(i).Type(), depth+1)
+			} else {
+				f[i] = m.zero(u.Field(i).Type())
+			}
+		}
+		return &StructV{F: f}
+	}
+	panic(m.unsupported("json.Unmarshal into %s", t))
+}
+
+func (m *Machine) needBase10(v Value) {
+	if t, ok := v.(*Term); !ok || !t.IsConst() || t.U != 10 {
+		panic(m.unsupported("strconv formatting with a base other than the constant 10"))
 	}
 }
 
@@ -703,8 +811,24 @@ func (m *Machine) formatInt(t *Term, signed bool, width int) *Term {
 		}
 		return m.strLit(s)
 	}
+	if signed && width == 0 {
+		// signed decimal = the unsigned digits of the magnitude, with a minus sign for negative
+		// values: signed and unsigned formatting of one number agree exactly where they do in Go
+		v := BVResize(t, 64, true)
+		neg := BVCmp("bvslt", v, BVC(64, 0))
+		pos := m.formatInt(v, false, 0)
+		mag := m.formatInt(BVNeg(v), false, 0)
+		if m.Domain == DomAlgebra {
+			return Ite(neg, m.ctor("minus", mag), pos)
+		}
+		return Ite(neg, m.strConcat(m.strLit("-"), mag), pos)
+	}
 	if m.Domain == DomAlgebra {
-		return m.ctor(fmt.Sprintf("itoa%d", width), t)
+		name := fmt.Sprintf("itoa%d", width)
+		if signed {
+			name += "s"
+		}
+		return m.ctor(name, BVResize(t, 64, signed))
 	}
 	// String domain: decimal formatting is an uninterpreted function of the (sign- or
 	// zero-extended) 64-bit value, one function per (width, signedness). Two formatters
@@ -767,7 +891,7 @@ func parseSQL(q string) sqlStmt {
 		return true
 	}
 	whereVal := false
-	whereNull := 0 // 1: chkpt IS NOT NULL, 2: chkpt IS NULL
+	whereNull := 0                 // 1: chkpt IS NOT NULL, 2: chkpt IS NULL
 	where := func() (bool, bool) { // (hasKey, ok): a conjunction of logID = ?, chkpt = ?, chkpt IS [NOT] NULL
 		if len(t) == 0 {
 			return false, true
